@@ -274,11 +274,32 @@ def _enum(maxlen):
     return gen, len(alpha)
 
 
+def _enum4():
+    """Length-4 sequences over a smaller alphabet (2 keys of one id on two routes + another id; 7 event shapes)."""
+    alpha = []
+    for tid, route in (("a", None), ("a", "0"), ("b", None)):
+        for status in (None, "inprogress", "success", "fail", "exists"):
+            alpha.append(dict(test_id=tid, route_code=route, test_status=status, test_tags=None, runnable=True,
+                              timestamp=None, file_name=None, file_bytes=None, eof=False, mime_type=None))
+        alpha.append(dict(test_id=tid, route_code=route, test_status=None, test_tags={"t"}, runnable=True,
+                          timestamp=1, file_name="f", file_bytes=b"1", eof=False, mime_type="text/plain"))
+        alpha.append(dict(test_id=tid, route_code=route, test_status="skip", test_tags=set(), runnable=True,
+                          timestamp=3, file_name="f", file_bytes=b"22", eof=True, mime_type="text/plain"))
+
+    def gen():
+        for combo in itertools.product(alpha, repeat=4):
+            yield {"events": list(combo)}
+    return gen, len(alpha)
+
+
 def subchecks(tier):
     q = tier == "quick"
     gen, k = _enum(2 if q else 3)
+    gen4, k4 = _enum4()
     return [
         Sub("random_streams", run_case, st.fixed_dictionaries({"events": EVENTS}), 1200 if q else 150000),
         Sub("enumerated_streams", run_case, enum=gen, enum_complete=True,
             note="every sequence of length <= %d over a %d-symbol alphabet" % (2 if q else 3, k)),
-    ]
+    ] + ([] if q else [
+        Sub("enumerated_streams_len4", run_case, enum=gen4, enum_complete=True,
+            note="every sequence of length exactly 4 over a reduced %d-symbol alphabet" % k4)])
